@@ -167,6 +167,19 @@ func regProgram(r *Rng, n int, emit func(l Line) string, stats map[string]int) {
 	urls := map[string][]string{"A": {"mem", "d0", "d2"}, "B": {"mem", "d1", "d3"}}
 	home := map[string]string{"A": pick(r, []string{"mem", "d0"}), "B": pick(r, []string{"mem", "d1"})}
 	hname := map[string]string{}
+	// incarnation of a name's store: a new one starts when the bucket is deleted or (on disk) when its last handle closes
+	inc := map[string]int{}
+	hinc := map[string]int{}
+	hurl := map[string]string{}
+	openCount := func(name string) int {
+		c := 0
+		for o, nm := range hname {
+			if nm == name && opened[o] && !dead[o] && !closedH[o] && hinc[o] == inc[name] {
+				c++
+			}
+		}
+		return c
+	}
 	for i := 0; i < n; i++ {
 		var l Line
 		switch r.weighted([]int{30, 20, 8, 22, 20}) {
@@ -184,6 +197,8 @@ func regProgram(r *Rng, n int, emit func(l Line) string, stats map[string]int) {
 				dead[h] = false
 				closedH[h] = false
 				hname[h] = name
+				hinc[h] = inc[name]
+				hurl[h] = url
 			}
 			stats["cell:reg/open/"+strings.SplitN(strings.TrimPrefix(res, "r="), " ", 2)[0]]++
 			continue
@@ -193,12 +208,25 @@ func regProgram(r *Rng, n int, emit func(l Line) string, stats map[string]int) {
 				continue // (closing a handle whose bucket was already deleted releases, by name, a reference of whatever bucket now has that name: excluded, see DESIGN)
 			}
 			l = Line{Op: "hclose", Pos: []string{h}}
+			wasOpen := !closedH[h] && hinc[h] == inc[hname[h]]
 			closedH[h] = true
+			if wasOpen && hurl[h] != "mem" && openCount(hname[h]) == 0 {
+				inc[hname[h]]++ // the store of an on-disk bucket ends with its last handle
+			}
 		case 2:
 			h := pick(r, handles)
-			if !opened[h] || dead[h] || closedH[h] {
-				continue // (deleting through a handle that was closed earlier acts, by name and URL, on whatever bucket has them now: excluded)
+			if !opened[h] || dead[h] {
+				continue // (deleting through a handle whose bucket was deleted earlier acts, by name and URL, on whatever bucket has them now: excluded)
 			}
+			if closedH[h] {
+				// a closed handle may still delete its bucket while that very bucket is alive, i.e. another handle of it is open
+				if hinc[h] != inc[hname[h]] || openCount(hname[h]) == 0 {
+					continue
+				}
+			} else if hinc[h] != inc[hname[h]] {
+				continue
+			}
+			inc[hname[h]]++
 			l = Line{Op: "cad", Pos: []string{h}}
 			for o, nm := range hname {
 				if nm == hname[h] {
